@@ -524,6 +524,14 @@ impl<'a> ArxmlParser<'a> {
                 }
                 ArxmlEvent::Characters(text_content) => {
                     if let Some(character_data_spec) = element.elemtype.chardata_spec() {
+                        if element.elemtype.content_mode() == ContentMode::Characters && !element.content.is_empty() {
+                            // a character data element holds exactly one value; text that continues after a comment
+                            // or a processing instruction would be stored as a second value and lost when writing
+                            self.optional_error(ArxmlParserError::CharacterContentForbidden {
+                                element: element.elemname,
+                            })?;
+                            continue;
+                        }
                         let value = self.parse_character_data(text_content, character_data_spec)?;
                         if element.elemtype.is_ref() {
                             if let CharacterData::String(refpath) = &value {
